@@ -878,6 +878,43 @@ pub fn execute(plan: &C10Plan) -> Outcome<C10Plan> {
             real == model_dec
         };
         out.count(if agree { "model_agrees" } else { "model_disagrees" }, 1);
+        // For a monotone history the grouping itself is fixed by the property:
+        // a reception's window "has closed" as soon as an arrival stamped at or
+        // after first arrival + window has been consumed, so a group holds the
+        // first arrival and the same-frame arrivals up to that point, no more
+        // (a group that outlives its window swallows receptions that belong to
+        // the next record) and no fewer. The order of records whose windows
+        // close on the same arrival is not fixed, hence the comparison as sets.
+        if monotone && !crashed && end == RunEnd::Quiescent && sim.panics.is_empty() {
+            let mut a: Vec<Vec<u32>> = real.clone();
+            let mut b: Vec<Vec<u32>> = if sh.flush_sent { model_dec.clone() } else { model_dec.iter().take(real.len()).cloned().collect() };
+            if sh.flush_sent {
+                // everything is closed by the flush in both
+                for ids in open.values() {
+                    if decodable[by_id[&ids[0]].frame as usize % frames.len()] {
+                        b.push(ids.clone());
+                    }
+                }
+            }
+            a.sort();
+            b.sort();
+            if sh.flush_sent && a != b && viol.is_none() {
+                let extra = a.iter().find(|g| !b.contains(g)).cloned().unwrap_or_default();
+                let want = b.iter().find(|g| g.first() == extra.first()).cloned().unwrap_or_default();
+                viol = Some(Violation::new(
+                    "c10.5-timeliness",
+                    "group-differs-from-window",
+                    format!(
+                        "monotone history, window {} ms: record with receptions {:?} was emitted, but the window opened by reception {} closes with receptions {:?} (stamps ms: {:?})",
+                        w,
+                        extra,
+                        extra.first().copied().unwrap_or(0),
+                        want,
+                        extra.iter().map(|i| ms_of(by_id[i].ts_us)).collect::<Vec<_>>()
+                    ),
+                ));
+            }
+        }
         if sh.flush_sent && open.len() >= 3 {
             out.count("flush_with_3_open_groups", 1);
         }
